@@ -19,6 +19,8 @@ type lookupCase struct {
 	Purge     bool   `json:"purge"`
 	Workers   int    `json:"workers"`
 	Ms        int    `json:"ms"`
+	Capacity  bool   `json:"capacity"`
+	Size      int    `json:"size"`
 }
 
 // emptyStore a store that never has anything: with a store every entry knows the key it was created for
@@ -28,6 +30,46 @@ func (emptyStore) Get(key []byte) ([]byte, error)                       { return
 func (emptyStore) Set(key []byte, data []byte, ttl time.Duration) error { return nil }
 func (emptyStore) Delete(key []byte) error                              { return nil }
 func (emptyStore) Close() error                                         { return nil }
+
+// lookupCapacity many keys, little room, all CPUs: how many entries are resident
+func lookupCapacity(raw json.RawMessage, i int, c *lookupCase) map[string]interface{} {
+	d := cache.NewDispatcher(cache.DispatcherOption{Size: c.Size})
+	nkeys := 3*c.Size + 50
+	var lookups int64
+	var stop int32
+	wg := sync.WaitGroup{}
+	for g := 0; g < c.Workers; g++ {
+		wg.Add(1)
+		go func(g int) {
+			defer wg.Done()
+			n := int64(0)
+			for j := g * 7919; atomic.LoadInt32(&stop) == 0; j += 31 {
+				d.GetHTTPCache([]byte(fmt.Sprintf("GET h /capacity/%d/%d", i, j%nkeys)))
+				n++
+			}
+			atomic.AddInt64(&lookups, n)
+		}(g)
+	}
+	maxResident := 0
+	look := func() {
+		_, lens := cache.VerifShards(d)
+		t := 0
+		for _, n := range lens {
+			t += n
+		}
+		if t > maxResident {
+			maxResident = t
+		}
+	}
+	for k := 0; k < 5; k++ {
+		time.Sleep(time.Duration(c.Ms) * time.Millisecond / 5)
+		look()
+	}
+	atomic.StoreInt32(&stop, 1)
+	wg.Wait()
+	look()
+	return map[string]interface{}{"case": raw, "i": i, "lookups": lookups, "maxResident": maxResident}
+}
 
 // Lookup runs the C06 lookup-side cases: free-running lookups of a few keys of one shard
 func Lookup(raws []json.RawMessage) ([]interface{}, error) {
@@ -42,6 +84,10 @@ func Lookup(raws []json.RawMessage) ([]interface{}, error) {
 		var c lookupCase
 		if err := json.Unmarshal(raw, &c); err != nil {
 			return nil, err
+		}
+		if c.Capacity {
+			out = append(out, lookupCapacity(raw, i, &c))
+			continue
 		}
 		size := 512 // 128 shards with room for 4
 		if c.Limit == "evicting" {
